@@ -13,7 +13,8 @@ statements.update_statements_for_language("c++")) and dumps
 Text is interned: statement-key parts become Nat ids (0 = empty part), template lines are mapped
 to `(op code, variable codes)` through the explicit PATTERNS table below.  A template line of a
 plain-C-API entry (no buf/cfi/cdesc part) or an arg_call / conversion pattern that no pattern
-matches makes the translator raise (a broken tie, never a silent skip).  Lines of buf/cfi/cdesc
+matches is recorded in `unmapped` (returned by regenerate) and written as op 99 - the caller reports a broken tie and the
+table theorems no longer hold, then the oracle searches for a failing input (never a silent skip, never a crash of the check).  Lines of buf/cfi/cdesc
 entries belong to C01/C10 and are emitted as op 0.
 """
 import json
@@ -45,7 +46,7 @@ PATTERNS = [
     (1, r"(?:\{c_const\})?std::string" + V + r"\(" + V + r"\);"),
     (2, r"(?:\{c_const\})?std::string" + V + r";"),
     (3, r"strcpy\(" + V + "," + V + r"\{cxx_member\}c_str\(\)\);"),
-    (4, r"\{c_const\}\{cxx_type\}\*" + V + r"=\{cast_static\}\{c_const\}\{cxx_type\}\*\{cast1\}" + V + r"\{c_member\}addr\{cast2\};"),
+    (4, r"(\{c_const\}|)\{cxx_type\}\*" + V + r"=\{cast_static\}(\{c_const\}|)\{cxx_type\}\*\{cast1\}" + V + r"\{c_member\}addr\{cast2\};"),
     (10, V + r"->addr=static_cast<\{c_const\}void\*>\(" + V + r"\);"),
     (5, V + r"->addr=" + V + r";"),
     (6, V + r"->idtor=" + V + r";"),
@@ -116,7 +117,8 @@ def shape(t):
             "k": [[k, shape(v)] for k, v in t.items() if isinstance(v, dict) and k not in ("_node",)]}
 tm = []
 for name, t in sorted(typemap.shared_typedict.items()):
-    tm.append({"name": name, "base": t.base, "sgroup": t.sgroup, "c_to_cxx": t.c_to_cxx, "cxx_to_c": t.cxx_to_c})
+    tm.append({"name": name, "base": t.base, "sgroup": t.sgroup, "c_to_cxx": t.c_to_cxx, "cxx_to_c": t.cxx_to_c,
+               "c_type": t.c_type, "cxx_type": t.cxx_type})
 print(json.dumps({"rows": rows, "default": default, "shape": shape(statements.cf_tree["c"]), "typemaps": tm}))
 '''
 
@@ -133,6 +135,13 @@ def norm(line):
     return re.sub(r"\s+", "", line)
 
 
+UNMAPPED = []      # lines no pattern covers: op 99 in the table, reported by the caller as a broken tie
+
+
+def unmapped(what):
+    UNMAPPED.append(what)
+
+
 def map_line(line, where):
     s = norm(line)
     for code, rx in PATTERNS:
@@ -140,13 +149,20 @@ def map_line(line, where):
         if m:
             args = []
             for g in m.groups():
+                if code == 4 and g in ("", "{c_const}"):
+                    args.append(1 if g else 0)      # is the declaration / the cast const-qualified
+                    continue
                 if g not in VARS:
-                    raise RuntimeError("extract_cstmts: unknown variable {%s} in %s line %r" % (g, where, line))
+                    unmapped("unknown variable {%s} in %s line %r" % (g, where, line))
+                    return 99, []
                 args.append(VARS[g])
+            if code == 4:
+                args = [args[1], args[3], args[0], args[2]]   # [declared var, source var, const decl, const cast]
             if code == 5 and args[1] == VARS["nullptr"]:
                 code = 12
             return code, args
-    raise RuntimeError("extract_cstmts: template line of %s not covered by the pattern table: %r" % (where, line))
+    unmapped("template line of %s not covered by the pattern table: %r" % (where, line))
+    return 99, []
 
 
 def map_argcall(line, where):
@@ -155,7 +171,8 @@ def map_argcall(line, where):
         m = re.fullmatch(rx, s)
         if m and m.group(1) in VARS:
             return code, [pre, VARS[m.group(1)]]
-    raise RuntimeError("extract_cstmts: arg_call of %s not covered by the pattern table: %r" % (where, line))
+    unmapped("arg_call of %s not covered by the pattern table: %r" % (where, line))
+    return 99, []
 
 
 def map_conv(text, table, where):
@@ -168,10 +185,12 @@ def map_conv(text, table, where):
             args = []
             for g in m.groups():
                 if g not in VARS:
-                    raise RuntimeError("extract_cstmts: unknown variable {%s} in %s %r" % (g, where, text))
+                    unmapped("unknown variable {%s} in %s %r" % (g, where, text))
+                    return 9, []
                 args.append(VARS[g])
             return code, args
-    raise RuntimeError("extract_cstmts: conversion pattern of %s not covered by the pattern table: %r" % (where, text))
+    unmapped("conversion pattern of %s not covered by the pattern table: %r" % (where, text))
+    return 9, []
 
 
 def intern_table(rows):
@@ -201,18 +220,21 @@ def entry_fields(r, ids, plain):
     rt = r["return_type"]
     if rt not in RETTYPE:
         if plain:
-            raise RuntimeError("extract_cstmts: return_type of %s not covered: %r" % (where, rt))
+            unmapped("return_type of %s not covered: %r" % (where, rt))
         rtc = 9
     else:
         rtc = RETTYPE[rt]
     for b in list(r["buf_args"] or []) + list(r["buf_extra"] or []):
         if b not in BUFARG:
-            raise RuntimeError("extract_cstmts: unknown buf_arg %r in %s" % (b, where))
+            unmapped("unknown buf_arg %r in %s" % (b, where))
+            BUFARG[b] = 9
     for f in ("cxx_local_var", "c_local_var"):
         if r[f] not in LOCAL:
-            raise RuntimeError("extract_cstmts: unknown %s %r in %s" % (f, r[f], where))
+            unmapped("unknown %s %r in %s" % (f, r[f], where))
+            LOCAL[r[f]] = 9
     if r["owner"] not in OWNER:
-        raise RuntimeError("extract_cstmts: unknown owner %r in %s" % (r["owner"], where))
+        unmapped("unknown owner %r in %s" % (r["owner"], where))
+        OWNER[r["owner"]] = 9
     return dict(
         key=[ids[p] for p in r["key"]], plain=plain, cxxLocal=LOCAL[r["cxx_local_var"]], cLocal=LOCAL[r["c_local_var"]],
         bufArgs=[BUFARG[b] for b in (r["buf_args"] or [])], bufExtra=[BUFARG[b] for b in (r["buf_extra"] or [])],
@@ -240,7 +262,7 @@ def build(data):
     for t in data["typemaps"]:
         a = map_conv(t["c_to_cxx"], C_TO_CXX, t["name"] + ".c_to_cxx")
         b = map_conv(t["cxx_to_c"], CXX_TO_C, t["name"] + ".cxx_to_c")
-        convs.append((t["name"], t["base"], t["sgroup"], a, b))
+        convs.append((t["name"], t["base"], t["sgroup"], a, b, t.get("c_type"), t.get("cxx_type")))
     return ids, names, entries, dflt_e, convs
 
 
@@ -275,16 +297,31 @@ def render(ids, names, entries, dflt_e, convs, rows):
     out.append("    2 static_cast<void *>(<addr>x) 3 x<member>c_str() 5 MPI_Comm_c2f -/")
     out.append("def typemapConv : List (Nat × Nat × List Nat × Nat × List Nat) := [")
     base = {"shadow": 1, "string": 2, "struct": 3, "vector": 4}
-    for i, (name, b, sg, a, c) in enumerate(convs):
+    for i, (name, b, sg, a, c, _ct, _xt) in enumerate(convs):
         out.append("  /- %s -/ (%d, %d, %s, %d, %s)%s" % (name, base.get(b, 0), a[0], lean_nats(a[1]), c[0], lean_nats(c[1]),
                                                       "," if i + 1 < len(convs) else ""))
     out.append("]")
+    out.append("")
+    out.append("/-- C and C++ spelling of every typemap that crosses the boundary without a conversion (sgroup native or bool, no")
+    out.append("    c_to_cxx / cxx_to_c): (kind, c_type, cxx_type) as code points; kind 0 same type expected, 1 the documented C99 /")
+    out.append("    C++ complex pair `T complex` / `std::complex<T>` -/")
+    out.append("def typemapTypes : List (Nat × List Nat × List Nat) := [")
+    rows = [(name, ct, xt) for (name, b, sg, a, c, ct, xt) in convs
+            if sg in ("native", "bool", "char", "void") and a[0] == 0 and c[0] == 0 and ct is not None and xt is not None]
+    for i, (name, ct, xt) in enumerate(rows):
+        kind = 1 if name.endswith("_complex") else 0
+        out.append("  /- %s -/ (%d, %s, %s)%s" % (name, kind, lean_nats([ord(ch) for ch in ct]), lean_nats([ord(ch) for ch in xt]),
+                                              "," if i + 1 < len(rows) else ""))
+    out.append("]")
+    out.append("def complexSuffix : List Nat := %s  -- ` complex`" % lean_nats([ord(ch) for ch in " complex"]))
+    out.append("def complexPrefix : List Nat := %s  -- `std::complex<`" % lean_nats([ord(ch) for ch in "std::complex<"]))
     out.append("")
     out.append("end Shroud.Gen.CStmts")
     return "\n".join(out) + "\n"
 
 
 def regenerate():
+    del UNMAPPED[:]
     data = dump()
     ids, names, entries, dflt_e, convs = build(data)
     text = render(ids, names, entries, dflt_e, convs, data["rows"])
@@ -292,7 +329,7 @@ def regenerate():
     return {"entries": len(entries), "plain_entries": sum(1 for e in entries if e["plain"]), "parts": len(names),
             "typemaps": len(convs), "converting_typemaps": sum(1 for c in convs if c[3][0] or c[4][0]),
             "template_lines_mapped": sum(len(e[f]) for e in entries if e["plain"] for f in ("pre", "call", "post", "ret")) +
-            sum(len(e["argCall"]) for e in entries), "changed": changed}, data, ids, names, entries
+            sum(len(e["argCall"]) for e in entries), "changed": changed, "unmapped": list(UNMAPPED)}, data, ids, names, entries
 
 
 if __name__ == "__main__":
